@@ -72,9 +72,10 @@ func main() {
 		os.Exit(2)
 	}
 	rep := vlib.NewReport(cfg)
-	rep.Rule("case = one module-system life in a fresh process: random acyclic dependency graph (8 families, 1..8 modules quick / 1..14 thorough) x per-callback behaviour (run time 0-30 ms, nil function, error, panic; 0-2 failing callbacks placed in prep/start/stop) x management off/on with 0-6 rounds of Enable/Disable + ManageModules, then Shutdown (also after a failed Start). Distinct = graph x behaviours x script; counted as non-trivial only if >= 2 lifecycle callbacks were observed running concurrently.")
+	rep.Rule("case = one module-system life in a fresh process: random acyclic dependency graph (8 families, 1..8 modules quick / 1..14 thorough) x per-callback behaviour (run time 0-30 ms, nil function, error, panic; 0-2 failing callbacks placed in prep/start/stop) x management off/on with 0-6 rounds of Enable/Disable + ManageModules, then Shutdown (also after a failed Start). Two of every ten cases beyond the first 80 have 2-3 concurrent clients: overlapping Enable/Disable+ManageModules calls, or overlapping Shutdown calls, with a barrier inside a start/stop callback that keeps the first client's pass in progress while the others call. Distinct = graph x behaviours x script; counted as non-trivial only if >= 2 lifecycle callbacks were observed running concurrently.")
 	rep.Assume("callback begin/end events and API call/return events are numbered by one atomic counter inside the harness; the order of the numbers is consistent with happens-before")
 	rep.Assume("'completely stopped' is observed as the end of the harness stop callback (the scenarios run no workers or tasks; C05 covers those)")
+	rep.Assume("with concurrent clients only the determined part of the wanted set is demanded: modules enabled by calls that returned before the pass was called and not touched by any Enable/Disable in progress or issued until the caller's status snapshot; modules touched in that window may or may not be online")
 	rep.Assume("wanted set = all registered modules, or with management the modules whose Enable() returned last before the pass was called plus their transitive dependencies; Enable/Disable/ManageModules are called from one goroutine")
 
 	var scs []Scenario
@@ -207,6 +208,13 @@ func main() {
 		}
 		rep.Count("change_notifications", r.out.Notifies)
 		rep.Count("ctrlfn_done_hook_delays", r.out.HookDelays)
+		if sc.Conc != nil {
+			rep.Count("scenarios_concurrent_"+sc.Conc.Kind, 1)
+			rep.Count("concurrent_calls_overlapping", int64(v.OverlapCalls))
+			if r.out.ParkMissed {
+				rep.Count("concurrent_barrier_missed", 1)
+			}
+		}
 		if sc.NilMid != "" {
 			rep.Count("scenarios_with_nil_stop_inside_path", 1)
 		}
@@ -282,9 +290,9 @@ func sampleOf(sc *Scenario, out *ChildOut, v *Verdict) any {
 			}
 			lines = append(lines, s)
 		case "call":
-			lines = append(lines, fmt.Sprintf("%d call %s %s", e.Seq, e.Op, fStr(e.F, "m")))
+			lines = append(lines, fmt.Sprintf("%d %s call %s %s", e.Seq, e.Who, e.Op, fStr(e.F, "m")))
 		case "ret":
-			lines = append(lines, fmt.Sprintf("%d ret %s err=%v", e.Seq, e.Op, e.F["err"]))
+			lines = append(lines, fmt.Sprintf("%d %s ret %s err=%v", e.Seq, e.Who, e.Op, e.F["err"]))
 		}
 		if len(lines) >= 80 {
 			lines = append(lines, "…")
